@@ -55,3 +55,8 @@ pub assume_specification<T> [std::mem::drop] (_0: T);
 pub assume_specification<T: Default> [core::mem::take] (dest: &mut T) -> (r: T) ensures r == *old(dest);
 //@trusted std::mem::take: returns the old value (the value left behind, Default::default(), is unspecified)
 //@trusted std::mem::drop: consumes its argument, no other effect visible to the contracts
+
+// R28: the text written by `write!` is opaque; formatting into a Formatter can fail (fmt::Error) and has no other effect visible here
+#[verifier::external_body]
+pub fn fmt_write(f: &mut std::fmt::Formatter) -> (r: std::fmt::Result) { unimplemented!() }
+//@trusted core::fmt::write (R28): opaque - returns Ok or fmt::Error
